@@ -5,11 +5,11 @@ Determinism proof: for each property, run indices 0..N-1 are executed (a) by one
 import os, subprocess, sys
 HERE = os.path.dirname(os.path.abspath(__file__)); sys.path.insert(0, HERE)
 import vbuild
-ENG = {"C02": "pktsim", "C03": "vfsim", "C04": "encsim", "C07": "vfsim", "C08": "vfsim", "C09": "vfsim", "C10": "vfsim", "C11": "pktsim", "C12": "vfsim",
-       "C13": "vfsim", "C14": "encsim", "C17": "vfsim", "C18": "mtsim", "C19": "vfsim", "C20": "vfsim"}
+ENG = {"C02": "pktsim", "C03": "vfsim", "C04": "encsim", "C07": "vfsim", "C08": "vfsim", "C09": "vfsim", "C10": "vfsim", "C11": "pktsim,vfsim", "C12": "vfsim",
+       "C13": "vfsim,pktsim,encsim", "C14": "encsim", "C17": "vfsim", "C18": "mtsim", "C19": "vfsim", "C20": "vfsim"}
 
-def run(exe, prop, worker, nworkers, maxruns, seed):
-    cmd = [exe, "run", "--engine", ENG[prop], "--prop", prop, "--tier", "quick", "--seed", str(seed), "--worker", str(worker), "--nworkers", str(nworkers),
+def run(exe, prop, worker, nworkers, maxruns, seed, eng):
+    cmd = [exe, "run", "--engine", eng, "--prop", prop, "--tier", "quick", "--seed", str(seed), "--worker", str(worker), "--nworkers", str(nworkers),
            "--seconds", "100000", "--maxruns", str(maxruns), "--runlog", "--noshrink", "--maxviol", "1000000", "--replaydir", "/verif/build/tmp/det_replays", "--tmpdir", "/verif/build/tmp"]
     out = subprocess.run(cmd, capture_output=True, text=True).stdout
     return {int(l.split()[1]): l.split()[2] for l in out.splitlines() if l.startswith("RUN ")}
@@ -21,12 +21,13 @@ def main():
     if not exe: sys.exit(2)
     bad = 0; total = 0
     for p in props:
-        a = run(exe, p, 0, 1, n, 424242); b = run(exe, p, 0, 1, n, 424242)
+      for eng in ENG[p].split(","):
+        a = run(exe, p, 0, 1, n, 424242, eng); b = run(exe, p, 0, 1, n, 424242, eng)
         c = {}
-        for w in (3, 2, 1, 0): c.update(run(exe, p, w, 4, (n + 3) // 4, 424242))
+        for w in (3, 2, 1, 0): c.update(run(exe, p, w, 4, (n + 3) // 4, 424242, eng))
         div = [i for i in range(n) if not (a.get(i) == b.get(i) == c.get(i)) or a.get(i) is None]
         total += n; bad += len(div)
-        print(f"DETERMINISM {p}: {n} runs x 3 executions, {len(div)} divergent" + (f" (first: run {div[0]}: {a.get(div[0])} {b.get(div[0])} {c.get(div[0])})" if div else ""), flush=True)
+        print(f"DETERMINISM {p}/{eng}: {n} runs x 3 executions, {len(div)} divergent" + (f" (first: run {div[0]}: {a.get(div[0])} {b.get(div[0])} {c.get(div[0])})" if div else ""), flush=True)
     print(f"DETERMINISM total {total} runs, {bad} divergent")
     sys.exit(1 if bad else 0)
 main()
